@@ -893,7 +893,9 @@ Definition configure_tcv (e : engine) (t : tcv) : tcv :=
                 end in
   tcv_with_sender t (option_map (sender_configure r f) (t_sender t)).
 
-Definition set_remote (p : pc) (ty : sdpty) (secs : list sec) (e : engine) : pc * outcome * effect :=
+(* the part of SetRemoteDescription that applies the description (reached only
+   after the validation below) *)
+Definition set_remote_apply (p : pc) (ty : sdpty) (secs : list sec) (e : engine) : pc * outcome * effect :=
   if p_closed p then (p, err_ "closed", fx_none)
   else
     let d := {| d_type := ty; d_secs := secs |} in
@@ -925,6 +927,23 @@ Definition set_remote (p : pc) (ty : sdpty) (secs : list sec) (e : engine) : pc 
            {| fx_triggers := 1; fx_to_stable := true |})
         else (p, err_ "signaling-state", fx_none)
     end.
+
+(* SetRemoteDescription as repaired ("validate the remote description before
+   applying it"): everything checked on the parsed description alone comes
+   first and leaves the connection untouched -- a mid on every m-section unless
+   the description is an answer, then extractICEDetails (remote m-sections
+   carry ICE credentials, assumed of the remote peer, so it fails exactly when
+   there is no m-section) -- and only then the signaling table and the rest. *)
+Definition secs_have_mid (secs : list sec) : bool :=
+  forallb (fun m => negb (String.eqb (mid_value m) "")) secs.
+Definition set_remote (p : pc) (ty : sdpty) (secs : list sec) (e : engine) : pc * outcome * effect :=
+  if p_closed p then (p, err_ "closed", fx_none)
+  else if (match ty with TAnswer => false | _ => true end) && negb (secs_have_mid secs)
+       then (p, err_ "remote-without-mid", fx_none)
+  else match secs with
+       | [] => (p, err_ "missing-ice-ufrag", fx_none)
+       | _ => set_remote_apply p ty secs e
+       end.
 
 (* ---------- operations ---------- *)
 
